@@ -188,6 +188,9 @@ def analyse(meta, res, genpath):
             "props": item["props"] if item else [], "message": msg, "clause": clause_n,
             "gen_line": where_line, "src": (item["src"] + ":%d-%d" % tuple(item["src_lines"])) if item else None,
             "havoc": bool(item and item.get("havoc")), "rendered": d.get("rendered", ""),
+            "carrying": bool(item and kind == "invariant" and any(
+                re.sub(r"[\s,]+", "", c) in re.sub(r"[\s,]+", "", clause_n) or re.sub(r"[\s,]+", "", clause_n) in re.sub(r"[\s,]+", "", c)
+                for c in item.get("carrying", []))),
         })
     return failures, rejected, rlimit
 
@@ -446,7 +449,7 @@ def main(argv):
             f["unit"] = rec["unit"]
             if f["obligation"] in known_ids:
                 knownhits.append(f)
-            elif f["kind"] in SCAFFOLD_KINDS or f["havoc"] or f["item"] is None:
+            elif (f["kind"] in SCAFFOLD_KINDS and not f["carrying"]) or f["havoc"] or f["item"] is None:
                 f["needs_witness"] = True
                 violations.append(f)
             else:
